@@ -2,8 +2,12 @@
   Property C16 — text forms are exact and round-trip.
   The models live in UVerif/Model/Text*.lean (functions on `List Char`, transcribed from the C++), the helper
   lemmas in UVerifProofs/Lemmas/Text*.lean.  Every theorem below quantifies over ALL widths / operands; where the
-  pinned code violates the property the statement carries the decidable guard under which it holds and a
+  code violates the property the statement carries the decidable guard under which it holds and a
   `…_counterexample` proves the negation of the unguarded statement at a concrete witness.
+  After the repairs of D18 (to_hex hexit count), D19 (operator<< working type), D20 (hex parse of a partial top byte),
+  the hex sign and the two edecimal parse defects, the models are the repaired code and the former guards
+  `4 ∣ nbits`, `8 ∣ nbits`, `10^k < 2^nbits`, "shorter than the width", "fresh object" are gone; the former
+  counterexamples are kept as positive regression anchors `…_cfg_…` at the same witnesses.
 -/
 import UVerifProofs.Lemmas.TextFloat
 import UVerifProofs.Lemmas.TextPosit
@@ -26,14 +30,17 @@ open UVerif UVerif.Text
 def C16_posit_hex_roundtrip_full : Prop :=
   ∀ n es v : Nat, 2 ≤ n → v < 2 ^ n → positRoundTrip n es v = some v
 
-/-- what holds of the pinned code: widths that are a multiple of 4 (to_hex prints all nibbles), at most 64 bits
-    (`parse` extracts into a `uint64_t`), `es ≤ 9` (the regex allows one `es` digit). -/
-theorem C16_posit_hex_roundtrip_partial (n es v : Nat) (h4 : 4 ∣ n) (hn0 : 0 < n) (hn : n ≤ 64) (hes : es ≤ 9)
+/-- every width up to 64 bits — a multiple of 4 or not (to_hex prints ⌈nbits/4⌉ hexits since the D18 repair) —
+    and `es ≤ 9` (the regex allows one `es` digit). The remaining guard `n ≤ 64` is real: `parse` extracts into a
+    `uint64_t` (known finding text.posit.parse.wider_than_64, witness below). -/
+theorem C16_posit_hex_roundtrip (n es v : Nat) (hn0 : 0 < n) (hn : n ≤ 64) (hes : es ≤ 9)
     (hv : v < 2 ^ n) : positRoundTrip n es v = some v :=
-  positRoundTrip_aligned n es v h4 hn0 hn hes hv
+  positRoundTrip_le64 n es v hn0 hn hes hv
 
 example : positRoundTrip 16 2 0xabcd = some 0xabcd :=
-  C16_posit_hex_roundtrip_partial 16 2 0xabcd (by decide) (by decide) (by decide) (by decide) (by decide)
+  C16_posit_hex_roundtrip 16 2 0xabcd (by decide) (by decide) (by decide) (by decide)
+example : positRoundTrip 63 3 (2 ^ 62 + 5) = some (2 ^ 62 + 5) :=
+  C16_posit_hex_roundtrip 63 3 (2 ^ 62 + 5) (by decide) (by decide) (by decide) (by decide)
 
 /-- `parse` / `operator>>` of ANY text of the posit form written for the same width — hex digits in either case,
     with or without `0x`, value below 2^64 — yields that value reduced to nbits bits (every nbits < 2^32, es ≤ 9). -/
@@ -45,17 +52,25 @@ theorem C16_posit_parse_text (n es : Nat) (hs : List Char) (V : Nat) (pfx : Bool
 
 example : positParse 32 "32.2x80000000p".toList = some 0x80000000 := by decide
 
-/-- D18: posit<5,1>, encoding 0x1f prints as `5.1x0xfp` and reads back as 0x0f. -/
-theorem C16_posit_hex_roundtrip_counterexample : positRoundTrip 5 1 0x1f = some 0x0f := by decide
-
-theorem C16_posit_hex_roundtrip_full_false : ¬ C16_posit_hex_roundtrip_full := by
-  intro h
-  have := h 5 1 0x1f (by decide) (by decide)
-  rw [C16_posit_hex_roundtrip_counterexample] at this
-  exact absurd this (by decide)
+/-- regression anchor (a test) at the former D18 witness: posit<5,1>, encoding 0x1f prints as `5.1x0x1fp` and reads
+    back as 0x1f. -/
+theorem C16_posit_hex_roundtrip_cfg_5_1 : positRoundTrip 5 1 0x1f = some 0x1f := by decide
 
 /-- the text printed for posit<5,1> 0x1f, character by character. -/
-theorem C16_posit_hex_format_cfg_5_1 : positHexFormat 5 1 0x1f = ['5', '.', '1', 'x', '0', 'x', 'f', 'p'] := by decide
+theorem C16_posit_hex_format_cfg_5_1 : positHexFormat 5 1 0x1f = ['5', '.', '1', 'x', '0', 'x', '1', 'f', 'p'] := by decide
+
+/-- widths that are a multiple of 4 no longer carry a redundant leading hexit. -/
+theorem C16_posit_hex_format_cfg_8_0 : positHexFormat 8 0 0x40 = ['8', '.', '0', 'x', '0', 'x', '4', '0', 'p'] := by decide
+
+/-- posit wider than 64 bits: the hex field overflows the `uint64_t` extraction (not repaired: known finding). -/
+theorem C16_posit_hex_roundtrip_wide_counterexample : positRoundTrip 80 2 (2 ^ 79) = some (2 ^ 64 - 1) := by decide
+
+/-- so the unguarded statement is still false — because of the widths above 64 bits only. -/
+theorem C16_posit_hex_roundtrip_full_false : ¬ C16_posit_hex_roundtrip_full := by
+  intro h
+  have := h 80 2 (2 ^ 79) (by decide) (by decide)
+  rw [C16_posit_hex_roundtrip_wide_counterexample] at this
+  exact absurd this (by decide)
 
 /-! ## cfloat / fixpnt: `0b…` -/
 
@@ -89,27 +104,27 @@ example : cfloatToBinaryMarked 16 5 0xabcd = "0b1.0'1010.11'1100'1101".toList :=
 def C16_integer_hex_roundtrip_full : Prop :=
   ∀ n v : Nat, 0 < n → v < 2 ^ n → integerParse n (integerToHex n v) = some v
 
-/-- holds when the width is a whole number of bytes (the scanner reads `nbits/8` bytes). -/
-theorem C16_integer_hex_roundtrip (n v : Nat) (h8 : 8 ∣ n) (hn : 0 < n) (hv : v < 2 ^ n) :
+/-- every width: the scanner reads ⌈nbits/8⌉ bytes and clips the top one at the width (D20 repaired). -/
+theorem C16_integer_hex_roundtrip (n v : Nat) (hn : 0 < n) (hv : v < 2 ^ n) :
     integerParse n (integerToHex n v) = some v :=
-  integerParse_toHex n v h8 hn hv
+  integerParse_toHex n v hn hv
 
-example : integerParse 16 (integerToHex 16 0xabcd) = some 0xabcd := C16_integer_hex_roundtrip 16 0xabcd (by decide) (by decide) (by decide)
+theorem C16_integer_hex_roundtrip_full_holds : C16_integer_hex_roundtrip_full :=
+  fun n v hn hv => C16_integer_hex_roundtrip n v hn hv
+
+example : integerParse 16 (integerToHex 16 0xabcd) = some 0xabcd := C16_integer_hex_roundtrip 16 0xabcd (by decide) (by decide)
+example : integerParse 7 (integerToHex 7 0x55) = some 0x55 := C16_integer_hex_roundtrip 7 0x55 (by decide) (by decide)
 
 /-- `to_hex` itself (shared nibble loop of integer, cfloat and fixpnt) is lossless for EVERY width: the digits read
-    back as the encoding. (The loss on 8 ∤ nbits is in `parse`, not in the printer.) -/
+    back as the encoding. -/
 theorem C16_to_hex_lossless (n v : Nat) (hn : 0 < n) (hv : v < 2 ^ n) :
     hexStrVal? ((integerToHex n v).drop 2) 0 = some v := toHex_lossless n v hn hv
 
-/-- D20: integer<12>: `0x710` (1808) reads back as 0x10; `0x100` reads as 0 in integer<9>. -/
-theorem C16_integer_hex_roundtrip_counterexample : integerParse 12 (integerToHex 12 0x710) = some 0x10 := by decide
-theorem C16_integer_parse_hex_counterexample : integerParse 9 ['0', 'x', '1', '0', '0'] = some 0 := by decide
-
-theorem C16_integer_hex_roundtrip_full_false : ¬ C16_integer_hex_roundtrip_full := by
-  intro h
-  have := h 12 0x710 (by decide) (by decide)
-  rw [C16_integer_hex_roundtrip_counterexample] at this
-  exact absurd this (by decide)
+/-- regression anchors (tests) at the former D20 witnesses: integer<12> `0x710` (1808) reads back as 0x710; `0x100`
+    reads as 0x100 in integer<9>; a digit above the width is clipped (`0xfff0` in integer<12> is 0xff0). -/
+theorem C16_integer_hex_roundtrip_cfg_12 : integerParse 12 (integerToHex 12 0x710) = some 0x710 := by decide
+theorem C16_integer_parse_hex_cfg_9 : integerParse 9 ['0', 'x', '1', '0', '0'] = some 0x100 := by decide
+theorem C16_integer_parse_hex_cfg_12_clip : integerParse 12 ['0', 'x', 'f', 'f', 'f', '0'] = some 0xff0 := by decide
 
 /-! ## decimal output is the exact decimal expansion -/
 
@@ -134,24 +149,28 @@ def C16_decimal_exact_integer_ostream_full : Prop :=
   ∀ nbits w v : Nat, (w = 8 ∨ w = 16 ∨ w = 32 ∨ w = 64) → 0 < nbits → v < 2 ^ nbits →
     integerOstream nbits w v = some (intToDec (toSigned nbits v))
 
-/-- integer `operator<<` (blocks of 10^k digits): exact when `10^k < 2^nbits`, for every block width. In
-    particular the output is then independent of the BlockType. -/
-theorem C16_decimal_exact_integer_ostream_partial (nbits w v : Nat) (hw : w = 8 ∨ w = 16 ∨ w = 32 ∨ w = 64)
-    (hn : 0 < nbits) (hfit : 10 ^ digitsInBlock10 w < 2 ^ nbits) (hv : v < 2 ^ nbits) :
+/-- integer `operator<<` (blocks of 10^k digits): exact for every width, every block width, every encoding — the
+    working type holds `10^k` whatever nbits is (D19 repaired). In particular the output is independent of the
+    BlockType (C12). -/
+theorem C16_decimal_exact_integer_ostream (nbits w v : Nat) (hw : w = 8 ∨ w = 16 ∨ w = 32 ∨ w = 64)
+    (hn : 0 < nbits) (hv : v < 2 ^ nbits) :
     integerOstream nbits w v = some (intToDec (toSigned nbits v)) :=
-  integerOstream_exact nbits w v hw hn hfit hv
+  integerOstream_exact nbits w v hw hn hv
+
+theorem C16_decimal_exact_integer_ostream_full_holds : C16_decimal_exact_integer_ostream_full :=
+  fun nbits w v hw hn hv => C16_decimal_exact_integer_ostream nbits w v hw hn hv
 
 example : integerOstream 12 8 1808 = some ['1', '8', '0', '8'] := by
-  rw [C16_decimal_exact_integer_ostream_partial 12 8 1808 (by decide) (by decide) (by decide) (by decide)]; decide
+  rw [C16_decimal_exact_integer_ostream 12 8 1808 (by decide) (by decide) (by decide)]; decide
 
-/-- D19: integer<12,uint16_t>(1808) prints `10000` (block10 = 10000 wraps to 1808 in integer<13>). -/
-theorem C16_decimal_exact_integer_ostream_counterexample : integerOstream 12 16 1808 = some ['1', '0', '0', '0', '0'] := by decide
+/-- regression anchor (a test) at the former D19 witness: integer<12,uint16_t>(1808) prints `1808`. -/
+theorem C16_decimal_exact_integer_ostream_cfg_12_u16 : integerOstream 12 16 1808 = some ['1', '8', '0', '8'] := by decide
 
-theorem C16_decimal_exact_integer_ostream_full_false : ¬ C16_decimal_exact_integer_ostream_full := by
-  intro h
-  have := h 12 16 1808 (by decide) (by decide) (by decide)
-  rw [C16_decimal_exact_integer_ostream_counterexample] at this
-  exact absurd this (by decide)
+/-- the same value through two block widths: the same text. -/
+theorem C16_decimal_integer_ostream_blocktype (nbits w w' v : Nat) (hw : w = 8 ∨ w = 16 ∨ w = 32 ∨ w = 64)
+    (hw' : w' = 8 ∨ w' = 16 ∨ w' = 32 ∨ w' = 64) (hn : 0 < nbits) (hv : v < 2 ^ nbits) :
+    integerOstream nbits w v = integerOstream nbits w' v := by
+  rw [C16_decimal_exact_integer_ostream nbits w v hw hn hv, C16_decimal_exact_integer_ostream nbits w' v hw' hn hv]
 
 /-- einteger `operator<<`: every limb width, every normalised limb vector of any length. -/
 theorem C16_decimal_exact_einteger (w : Nat) (hw : w = 8 ∨ w = 16 ∨ w = 32) (neg : Bool) (limbs : List Nat)
@@ -182,18 +201,22 @@ example : fixpntToDecimalString 8 4 0xa5 = ['-', '5', '.', '6', '8', '7', '5'] :
 /-- `support::mul` on canonical digit vectors is multiplication (used by the fixpnt fraction printer). -/
 theorem C16_decimal_mul_exact (x y : Nat) : decMul (decOfNat x) (decOfNat y) = decOfNat (x * y) := decMul_canon x y
 
-/-- edecimal: parsing the exact decimal expansion into a fresh object and printing it returns the same text. -/
-theorem C16_edecimal_parse_print (x : Int) : edecParsePrint false (intToDec x) = some (intToDec x) :=
-  edecParsePrint_canonical x
+/-- edecimal: parsing the exact decimal expansion and printing it returns the same text — into ANY object, whatever
+    sign it held before (`neg0`). -/
+theorem C16_edecimal_parse_print (neg0 : Bool) (x : Int) : edecParsePrint neg0 (intToDec x) = some (intToDec x) :=
+  edecParsePrint_canonical neg0 x
 
-/-- …but the sign flag of a re-used object survives `parse` (`clear()` is `std::vector::clear`). -/
-theorem C16_edecimal_parse_sticky_sign_counterexample : edecParsePrint true ['5'] = some ['-', '5'] := by decide
+/-- edecimal: a decimal text with an optional sign and ANY number of redundant leading zeros prints as the exact
+    decimal expansion of the value it denotes (no padding, `-0…0` is `0`). -/
+theorem C16_edecimal_parse_print_padded (neg0 neg plus : Bool) (k m : Nat) :
+    edecParsePrint neg0 ((if neg then ['-'] else if plus then ['+'] else []) ++ (List.replicate k '0' ++ natToDec m))
+      = some (intToDec (if neg then -(m : Int) else (m : Int))) :=
+  edecParsePrint_text neg0 neg plus k m
 
-/-- integer `operator<<` depends on the BlockType on the pinned tree (C12): the same 12-bit value, two block widths. -/
-theorem C16_decimal_integer_ostream_blocktype_counterexample : integerOstream 12 8 1808 ≠ integerOstream 12 16 1808 := by decide
-
-/-- posit wider than 64 bits: the hex field overflows the `uint64_t` extraction even though `4 ∣ nbits`. -/
-theorem C16_posit_hex_roundtrip_wide_counterexample : positRoundTrip 80 2 (2 ^ 79) = some (2 ^ 64 - 1) := by decide
+/-- regression anchors (tests) at the former witnesses: `5` into an object that held a negative value, `-0`, `007`. -/
+theorem C16_edecimal_parse_cfg_sticky_sign : edecParsePrint true ['5'] = some ['5'] := by decide
+theorem C16_edecimal_parse_cfg_negative_zero : edecParsePrint false ['-', '0'] = some ['0'] := by decide
+theorem C16_edecimal_parse_cfg_padding : edecParsePrint true ['0', '0', '7'] = some ['7'] := by decide
 
 /-! ## parsing digit strings -/
 
@@ -228,24 +251,32 @@ example : integerToDecimalString 12 0x800 = ['-', '2', '0', '4', '8'] := by deci
 /-- leading zero + octal digits: taken for octal, which is a stub — `parse` returns false. -/
 theorem C16_parse_decimal_octal_counterexample : integerParse 8 ['0', '1', '7'] = none := by decide
 
-/-- an unsigned `0x…` digit string of ANY length yields its value mod 2^nbits when `8 ∣ nbits`. -/
-theorem C16_parse_hex (nbits : Nat) (hs : List Char) (V : Nat) (h8 : 8 ∣ nbits) (hne : hs ≠ [])
+/-- an unsigned `0x…` digit string of ANY length yields its value mod 2^nbits — every width. -/
+theorem C16_parse_hex (nbits : Nat) (hs : List Char) (V : Nat) (hne : hs ≠ [])
     (hh : ∀ c ∈ hs, isHexDigit c = true) (hV : hexStrVal? hs 0 = some V) :
     integerParse nbits ('0' :: 'x' :: hs) = some (V % 2 ^ nbits) :=
-  integerParse_hex nbits hs V h8 hne hh hV
+  integerParse_hex nbits hs V hne hh hV
 
 example : integerParse 8 ['0', 'x', '1', 'a', 'B'] = some 0xab := by
-  rw [C16_parse_hex 8 ['1', 'a', 'B'] 0x1ab (by decide) (by decide) (by decide) (by decide)]; decide
+  rw [C16_parse_hex 8 ['1', 'a', 'B'] 0x1ab (by decide) (by decide) (by decide)]; decide
+example : integerParse 9 ['0', 'x', '1', 'a', 'B'] = some 0x1ab := by
+  rw [C16_parse_hex 9 ['1', 'a', 'B'] 0x1ab (by decide) (by decide) (by decide)]; decide
 
-/-- a leading `-` is honoured when the digit string is SHORTER than the width (fewer than 2·(nbits/8) nibbles):
-    the result is the two's complement of the magnitude… -/
-theorem C16_parse_hex_neg_partial (nbits : Nat) (hs : List Char) (V : Nat) (h8 : 8 ∣ nbits) (hne : hs ≠ [])
-    (hh : ∀ c ∈ hs, isHexDigit c = true) (hshort : hs.length < 2 * (nbits / 8)) (hV : hexStrVal? hs 0 = some V) :
-    integerParse nbits ('-' :: '0' :: 'x' :: hs) = some (negN nbits V) :=
-  integerParse_hex_neg nbits hs V h8 hne hh hshort hV
+/-- a leading `-` is honoured whatever the length of the digit string: the result is the two's complement of the
+    magnitude (mod 2^nbits) — every width; an explicit `+` changes nothing. -/
+theorem C16_parse_hex_neg (nbits : Nat) (hs : List Char) (V : Nat) (hne : hs ≠ [])
+    (hh : ∀ c ∈ hs, isHexDigit c = true) (hV : hexStrVal? hs 0 = some V) :
+    integerParse nbits ('-' :: '0' :: 'x' :: hs) = some (negN nbits V) ∧
+      (negN nbits V + V) % 2 ^ nbits = 0 :=
+  ⟨integerParse_hex_neg nbits hs V hne hh hV, negN_add_self nbits V⟩
+
+theorem C16_parse_hex_pos (nbits : Nat) (hs : List Char) (V : Nat) (hne : hs ≠ [])
+    (hh : ∀ c ∈ hs, isHexDigit c = true) (hV : hexStrVal? hs 0 = some V) :
+    integerParse nbits ('+' :: '0' :: 'x' :: hs) = some (V % 2 ^ nbits) :=
+  integerParse_hex_pos nbits hs V hne hh hV
 
 example : integerParse 16 ['-', '0', 'x', 'a', 'b', 'c'] = some 0xf544 := by
-  rw [C16_parse_hex_neg_partial 16 ['a', 'b', 'c'] 0xabc (by decide) (by decide) (by decide) (by decide) (by decide)]; decide
+  rw [(C16_parse_hex_neg 16 ['a', 'b', 'c'] 0xabc (by decide) (by decide) (by decide)).1]; decide
 
-/-- …whereas a `-` in front of a full-width digit string is never reached by the scanner. -/
-theorem C16_parse_hex_sign_counterexample : integerParse 8 ['-', '0', 'x', '0', '1'] = some 1 := by decide
+/-- regression anchor (a test) at the former witness: a `-` in front of a full-width digit string. -/
+theorem C16_parse_hex_sign_cfg_8 : integerParse 8 ['-', '0', 'x', '0', '1'] = some 0xff := by decide
